@@ -422,12 +422,20 @@ func (s *SIP) ParseHeader(header []byte) (err error) {
 		return
 	}
 
+	// The zero value of SIP (not made by NewSIP) has no map yet
+	if s.Headers == nil {
+		s.Headers = make(map[string][]string)
+	}
+
 	// Check if this is the following of last header
 	// RFC 3261 - 7.3.1 - Header Field Format specify that following lines of
 	// multiline headers must begin by SP or TAB
 	if header[0] == '\t' || header[0] == ' ' {
 
 		header = bytes.TrimSpace(header)
+		if len(s.Headers[s.lastHeaderParsed]) == 0 {
+			return fmt.Errorf("SIP header continuation line without a preceding header")
+		}
 		s.Headers[s.lastHeaderParsed][len(s.Headers[s.lastHeaderParsed])-1] += fmt.Sprintf(" %s", string(header))
 		return
 	}
